@@ -81,7 +81,8 @@ func traceDigest(obs *Obs, skipKeys map[string]bool) string {
 		fmt.Fprintf(h, "E%d %s\n", e.Step, EventLine(e.M, skipKeys))
 	}
 	for i, c := range obs.Conns {
-		fmt.Fprintf(h, "C%d %x closed=%v refused=%v\n", i, c.Recv, c.ServerClosed, c.Refused)
+		// replies may list things in Go map iteration order (FTP FEAT): hash the sorted lines
+		fmt.Fprintf(h, "C%d %x closed=%v refused=%v\n", i, canonLines(c.Recv), c.ServerClosed, c.Refused)
 		for _, d := range c.Dgrams {
 			fmt.Fprintf(h, "D%d %x\n", i, d)
 		}
@@ -117,3 +118,29 @@ func short(s string, n int) string {
 }
 
 func joinLines(xs []string) string { return strings.Join(xs, "\n") }
+
+func dumpObs(obs *Obs, skip map[string]bool) []string {
+	var out []string
+	out = append(out, obs.Trace...)
+	for _, e := range obs.Events {
+		if isHeartbeat(e.M) {
+			continue
+		}
+		out = append(out, fmt.Sprintf("E%d %s", e.Step, EventLine(e.M, skip)))
+	}
+	for i, c := range obs.Conns {
+		out = append(out, fmt.Sprintf("C%d %q closed=%v refused=%v", i, canonLines(c.Recv), c.ServerClosed, c.Refused))
+		for _, ch := range c.Chunks {
+			out = append(out, fmt.Sprintf("  chunk step=%d len=%d", ch.Step, len(ch.Data)))
+		}
+	}
+	out = append(out, obs.NetLog...)
+	return out
+}
+
+// canonLines returns the transcript with its lines sorted (order-insensitive canonical form).
+func canonLines(b []byte) string {
+	ls := strings.Split(string(b), "\n")
+	sort.Strings(ls)
+	return strings.Join(ls, "\n")
+}
